@@ -197,6 +197,7 @@ fn table_coherent<E: EndianParse, P: ParseAt + Show>(e: E, c: Class, data: &[u8]
     if lo > n || hi.map(|h| h < n).unwrap_or(false) {
         return Err(format!("size_hint() = ({}, {:?}) excludes the {} items next() yields", lo, hi, n));
     }
+    iter_methods_check("table iterator", || t.iter(), |v| v.show())?;
     // fused
     let mut it = t.iter();
     while it.next().is_some() {}
@@ -344,6 +345,11 @@ fn oracle_eidata(line: &str, spec: &str, v: u8) -> V {
     id[5] = v;
     let e = ident_expect(spec, &id);
     let got = run_line(line);
+    // the two order predicates of a spec value are complementary, for the run-time spec as for the compile-time ones
+    let flags = crate::run::eidata_flags_spec(spec, v);
+    if flags != "-" && flags != "10" && flags != "01" {
+        return Err(format!("C04: the {} spec value for EI_DATA={} answers is_little()={} and is_big()={}", spec, v, &flags[..1], &flags[1..]));
+    }
     let want = if e.starts_with("ok ") { format!("ok {}", &e[3..4]) } else { e };
     if got == want {
         Ok(())
@@ -420,6 +426,57 @@ pub fn oracle_line(line: &str, ann: &str) -> V {
         ["hashfn", kind, hexd] => oracle_hashfn(kind, &unhex(hexd)),
         _ => crate::oracle2::oracle_line2(line, ann),
     }
+}
+
+/// The `Iterator` trait's provided methods must be the functions `next()` defines — an override of `nth`, `count`,
+/// `last`, `fold`, `size_hint`, … (or a cursor shared between them) has to agree with plain iteration, from a fresh
+/// iterator **and after part of it was consumed**.  `mk` builds a fresh iterator, `show` renders an item.
+pub fn iter_methods_check<I: Iterator, F: Fn() -> I, S: Fn(&I::Item) -> String>(what: &str, mk: F, show: S) -> V {
+    let cap = 4096usize;
+    let items: Vec<String> = { let mut it = mk(); let mut v = vec![]; while let Some(x) = it.next() { v.push(show(&x)); if v.len() > cap { break; } } v };
+    if items.len() > cap { return Ok(()); }
+    let n = items.len();
+    for a in 0..n.min(3) + 1 {
+        for k in 0..n.min(4) + 2 {
+            let mut it = mk();
+            for _ in 0..a { it.next(); }
+            let got = it.nth(k).map(|v| show(&v));
+            let want = items.get(a + k).cloned();
+            if got != want {
+                return Err(format!("{}: after {} next() calls, nth({}) is not item {} of the iteration", what, a, k, a + k));
+            }
+            let after = it.next().map(|v| show(&v));
+            if want.is_some() && a + k + 1 < n && after != items.get(a + k + 1).cloned() {
+                return Err(format!("{}: after {} next() calls and nth({}), next() is not item {}", what, a, k, a + k + 1));
+            }
+        }
+        // consumers built on fold / try_fold, after `a` items were taken with next()
+        let rest = n - a.min(n);
+        let mut it = mk(); for _ in 0..a { it.next(); }
+        if it.count() != rest { return Err(format!("{}: after {} next() calls, count() is not the number of remaining items ({})", what, a, rest)); }
+        let mut it = mk(); for _ in 0..a { it.next(); }
+        if it.fold(0usize, |c, _| c + 1) != rest { return Err(format!("{}: after {} next() calls, fold() does not visit the {} remaining items", what, a, rest)); }
+        let mut it = mk(); for _ in 0..a { it.next(); }
+        let mut seen = vec![]; it.for_each(|x| seen.push(show(&x)));
+        if seen[..] != items[a.min(n)..] { return Err(format!("{}: after {} next() calls, for_each() does not visit the remaining items in order", what, a)); }
+        let mut it = mk(); for _ in 0..a { it.next(); }
+        if it.last().map(|v| show(&v)) != (if a < n { items.last().cloned() } else { None }) { return Err(format!("{}: after {} next() calls, last() is not the last remaining item", what, a)); }
+        let mut it = mk(); for _ in 0..a { it.next(); }
+        let (lo, hi) = it.size_hint();
+        if lo > rest || hi.map(|h| h < rest).unwrap_or(false) { return Err(format!("{}: after {} next() calls, size_hint() = ({}, {:?}) excludes the {} remaining items", what, a, lo, hi, rest)); }
+        let mut it = mk(); for _ in 0..a { it.next(); }
+        let sk: Vec<String> = it.skip(1).step_by(2).take(n + 2).map(|v| show(&v)).collect();
+        let want: Vec<String> = items.iter().skip(a.min(n) + 1).step_by(2).cloned().collect();
+        if sk != want { return Err(format!("{}: after {} next() calls, skip(1).step_by(2) differs from the same walk over the collected items", what, a)); }
+        // (an iterator need not be fused — NoteIterator is not — so nothing here polls again after the first None)
+        if a >= n { continue; }
+        let mut it = mk(); for _ in 0..a { it.next(); }
+        let tk: Vec<String> = it.by_ref().take(1).map(|v| show(&v)).collect();
+        let after: Vec<String> = it.map(|v| show(&v)).collect();
+        let mut joined = tk; joined.extend(after);
+        if joined[..] != items[a.min(n)..] { return Err(format!("{}: by_ref().take(1) then the rest differs from plain iteration (after {} next() calls)", what, a)); }
+    }
+    Ok(())
 }
 
 #[allow(dead_code)]
